@@ -28,6 +28,18 @@ CHECKS = {
    text="Every (kind, len, start, stop, step) of the stated box is enumerated (8 value kinds x len 0..=6 x 20 x 20 x 10 bounds, literal and variable form) together with i64-boundary and beyond-i64 rows and random cases; results (kind and items) are compared with an independent model of Python's slicing and subscripting.",
    note="Trusts model/pyslice.rs (unit tested on CPython examples, cross-checked with python3 in the thorough tier). Out-of-range subscripts are expected to be undefined. Exhaustive only inside the stated box.",
    design="3/C09"),
+ "C12": dict(
+   technique="property-based testing: metamorphic relation over four configurations (Strict/SemiStrict/Lenient/Chainable renders of the same generated program), plus complete enumeration of the documented site x mode matrix",
+   level="exploration",
+   text="Generated programs (free-mode and a mostly-well-typed generator that plants undefined operands in every operand position) are rendered under the four undefined behaviours with a recording context; success under a stricter mode must imply success with byte-identical output under every weaker mode. The documented matrix (print / iterate / truth test / attribute-or-item access / is defined / is undefined / default) is enumerated over 35 syntactic sites x 4 kinds of undefined operand x 4 modes.",
+   note="The matrix rows are language sites; individual filters are only covered by the monotonicity relation (their strict-mode behaviour differs between filters and is not documented). debug() is excluded.",
+   design="3/C12"),
+ "C13": dict(
+   technique="property-based testing: threshold oracle by bisection plus exhaustive budgets around the threshold and at the integer extremes, history invariants on fuel_levels, metamorphic additivity of fuel cost",
+   level="exploration",
+   text="For generated programs (macros, call blocks, includes, imports, recursive loops, inheritance, failing programs) the success threshold T is bisected and every budget in [T-40, T+16], sampled budgets below and the extremes up to u64::MAX must give exactly the unlimited outcome (>= T) or an out-of-fuel error (< T); fuel_levels must add up to the budget, equal T-1 and be repeatable; fuel cost must be additive over sequences and linear in the number of nested evaluations.",
+   note="A budget of 400000 stands in for 'no limit' during bisection; more expensive programs are skipped.",
+   design="3/C13"),
  "C16": dict(
    technique="property-based testing: round-trip oracle over generated serde shape trees (every variant/struct/map-key shape), identity oracle for embedded Values, differential of tojson / JSON auto-escape output against an independent strict RFC 8259 parser",
    level="exploration",
